@@ -49,3 +49,66 @@ Print Assumptions C17_mpis_roundtrip.
 (* non-vacuity: the hypotheses are met by concrete non-trivial values *)
 Example C17_example : mpi_ok 65537 /\ ExtractMPI (AppendMPI [] 65537 ++ [7]) = Some ([7], 65537).
 Proof. split; vm_compute; reflexivity. Qed.
+
+(* ---- protocol structures ---- *)
+From OTR Require Import Bytes.Msgs Bytes.MsgsProofs.
+
+Theorem C17_dhCommit_roundtrip : forall c t, sz (encryptedGx c) -> sz (yhashedGx c) ->
+  dhCommit_deser (dhCommit_ser c ++ t) = Some c.
+Proof. exact dhCommit_roundtrip. Qed.
+Print Assumptions C17_dhCommit_roundtrip.
+
+Theorem C17_dhKey_roundtrip : forall gy t, mpi_ok gy -> dhKey_deser (dhKey_ser gy ++ t) = Some gy.
+Proof. exact dhKey_roundtrip. Qed.
+Print Assumptions C17_dhKey_roundtrip.
+
+Theorem C17_revealSig_roundtrip : forall r x mac, lenN r = 16 -> sz x -> 20 <= lenN mac ->
+  revealSig_deser (revealSig_ser {| rs_r := r; rs_encSig := AppendData [] x; rs_mac := mac |}) =
+  Some {| rs_r := r; rs_encSig := x; rs_mac := firstn 20 mac |}.
+Proof. exact revealSig_roundtrip. Qed.
+Print Assumptions C17_revealSig_roundtrip.
+
+Theorem C17_sig_roundtrip : forall x mac, sz x -> 20 <= lenN mac ->
+  sig_deser (sig_ser {| sg_encSig := AppendData [] x; sg_mac := mac |}) =
+  Some {| sg_encSig := x; sg_mac := firstn 20 mac |}.
+Proof. exact sig_roundtrip. Qed.
+Print Assumptions C17_sig_roundtrip.
+
+Theorem C17_dataMsg_roundtrip : forall c, dm_ok c -> dataMsg_deser (dataMsg_ser c) = Ok c.
+Proof. exact dataMsg_roundtrip. Qed.
+Print Assumptions C17_dataMsg_roundtrip.
+
+Theorem C17_tlv_roundtrip : forall t rest, tlv_ok t -> tlv_deser (tlv_ser t ++ rest) = Some t.
+Proof. exact tlv_roundtrip. Qed.
+Print Assumptions C17_tlv_roundtrip.
+
+Theorem C17_plainDataMsg_roundtrip : forall c, nul_free (pm_message c) -> Forall tlv_ok (pm_tlvs c) ->
+  plainDataMsg_deser (plainDataMsg_ser c) = Some c.
+Proof. exact plainDataMsg_roundtrip. Qed.
+Print Assumptions C17_plainDataMsg_roundtrip.
+
+Theorem C17_padded_roundtrip : forall c, nul_free (pm_message c) -> Forall tlv_ok (pm_tlvs c) ->
+  plainDataMsg_deser (plainDataMsg_ser (plainDataMsg_pad c)) = Some (plainDataMsg_pad c).
+Proof. exact plainDataMsg_pad_roundtrip. Qed.
+Print Assumptions C17_padded_roundtrip.
+
+Theorem C17_smp_payload_roundtrip : forall tp mpis k, length mpis = k -> lenN mpis < 4294967296 ->
+  Forall mpi_ok mpis -> toSmpMessage k (tlvValue (genSMPTLV tp mpis)) = Some mpis.
+Proof. exact smp_payload_roundtrip. Qed.
+Print Assumptions C17_smp_payload_roundtrip.
+
+(* lengths match contents as long as the payload fits the 16-bit TLV length *)
+Theorem C17_smp_tlv_len_matches : forall tp mpis,
+  lenN (tlvValue (genSMPTLV tp mpis)) < 65536 ->
+  tlvLength (genSMPTLV tp mpis) = lenN (tlvValue (genSMPTLV tp mpis)).
+Proof. exact smp_tlv_len_matches. Qed.
+Print Assumptions C17_smp_tlv_len_matches.
+
+Theorem C17_dsaPub_roundtrip : forall k t, pub_ok k -> dsaPub_parse (dsaPub_ser k ++ t) = Some (t, k).
+Proof. exact dsaPub_roundtrip. Qed.
+Print Assumptions C17_dsaPub_roundtrip.
+
+Theorem C17_dsaPriv_roundtrip : forall k x t, pub_ok k -> mpi_ok x ->
+  dsaPriv_parse (dsaPriv_ser k x ++ t) = Some (t, k, x).
+Proof. exact dsaPriv_roundtrip. Qed.
+Print Assumptions C17_dsaPriv_roundtrip.
